@@ -277,6 +277,8 @@ class Translator:
         if kind in ('CallExpr', 'CXXMemberCallExpr', 'CXXOperatorCallExpr'):
             return self.ev_call(n, path, k)
         if kind == 'CXXThrowExpr':
+            if self.in_try:
+                raise Unsupported('throw expression inside a try block')
             return Leaf(path, exc=self.exc_name(n))
         if kind == 'CXXConstructExpr':
             return k(path, ('void',))
@@ -517,6 +519,8 @@ class Translator:
                 path.effs.append(f'Eff.{ctor} ' + ' '.join(ts))
                 return k(path, ('void',))
             return self.ev_args(args, path, got)
+        if self.in_try and name in ('Reallocate', 'SafeNextCapacity', 'Check'):
+            raise Unsupported(f'call of {name} inside a try block (it may throw in the model)')
         if name == 'Reallocate':
             def got(path, vs):
                 p = paren(self.ptr_term(vs[1], path)); o, nw, sz = [paren(self.as_nat(v, path)) for v in vs[2:5]]
@@ -686,8 +690,45 @@ class Translator:
                 path.locals[d['name']] = ('lv', loc)
                 return go(i + 1, path)
             return go(0, path)
+        if kind == 'CXXTryStmt':
+            # `try { BODY } catch (...) { HANDLER; throw; }` around element transfers only. In the model an element transfer
+            # (move / relocation / destruction / swap of elements) never throws — element moves are noexcept in every modelled
+            # element category (trusted base) — so the handler is unreachable there and BODY is translated alone. Anything in
+            # BODY that CAN throw in the model (allocation, capacity check), a handler that does not rethrow, a typed handler
+            # or a `return` inside BODY stops the translation.
+            inner = [c for c in n.get('inner', []) if isinstance(c, dict)]
+            if len(inner) != 2 or inner[0].get('kind') != 'CompoundStmt' or inner[1].get('kind') != 'CXXCatchStmt':
+                raise Unsupported('try statement of an unknown shape')
+            h = [c for c in inner[1].get('inner', []) if isinstance(c, dict) and c.get('kind')]
+            if len(h) != 1 or h[0].get('kind') != 'CompoundStmt':
+                raise Unsupported('only a catch-all handler `catch (...)` is known')
+            hs = [c for c in h[0].get('inner', []) if isinstance(c, dict)]
+            last = hs[-1] if hs else {}
+            while last.get('kind') in ('ExprWithCleanups',) and last.get('inner'):
+                last = last['inner'][0]
+            if last.get('kind') != 'CXXThrowExpr' or last.get('inner'):
+                raise Unsupported('catch handler that does not end with a rethrow `throw;`')
+            n0 = len(path.effs)
+            depth = self.in_try
+            self.in_try = depth + 1
+            def after(p):
+                for e in p.effs[n0:]:
+                    if not e.startswith(('Eff.relocN', 'Eff.moveN', 'Eff.destroyN', 'Eff.swapDeep')):
+                        raise Unsupported('effect inside a try block that may throw in the model: ' + e.split()[0])
+                saved = self.in_try
+                self.in_try = depth
+                r = knext(p)
+                self.in_try = saved
+                return r
+            def noret(p, v):
+                raise Unsupported('return inside a try block')
+            r = self.ex(inner[0], path, after, noret)
+            self.in_try = depth
+            return r
         # expression statement
         return self.ev(n, path, lambda p, v: knext(p))
+
+    in_try = 0
 
     # ---- driver for one member --------------------------------------------------------------------
     def translate(self, cls, decl, lean_name):
